@@ -96,8 +96,9 @@ func c07Assignments(c *cluster.Cluster) []c07Assign {
 func c07Child(ctx *runCtx, spec string) {
 	var n, r, rounds int
 	var seed int64
-	fmt.Sscanf(spec, "N=%d R=%d rounds=%d seed=%d", &n, &r, &rounds, &seed)
-	c, err := cluster.Start(cluster.Config{Replicas: r, Partitions: 7, TableSize: 1 << 20}, n)
+	var async bool
+	fmt.Sscanf(spec, "N=%d R=%d rounds=%d seed=%d async=%t", &n, &r, &rounds, &seed, &async)
+	c, err := cluster.Start(cluster.Config{Replicas: r, Partitions: 7, TableSize: 1 << 20, Async: async}, n)
 	if err != nil {
 		ctx.rep.Inconclusive("cluster start: " + err.Error())
 		return
@@ -118,7 +119,37 @@ func c07Child(ctx *runCtx, spec string) {
 	now := func() int64 { return int64(time.Since(t0)) }
 
 	keyN := 0
-	for _, as := range c07Assignments(c) {
+	assignments := c07Assignments(c)
+	// after the plain assignments: the DMap is flushed with Destroy while the embedded handles that
+	// were opened before stay in use next to clients that arrive over the network
+	assignments = append(assignments,
+		c07Assign{"DESTROY", nil},
+		c07Assign{"after-Destroy: old embedded handles on the owner + cluster client", func(s *paths.Session, c *cluster.Cluster, d, k string, i int) paths.Client {
+			if i%2 == 0 {
+				return s.Via("EO")
+			}
+			return s.Via("CC")
+		}},
+		c07Assign{"after-Destroy: old embedded handles (owner and non-owner) + raw RESP", func(s *paths.Session, c *cluster.Cluster, d, k string, i int) paths.Client {
+			return s.Via([]string{"EO", "RO", "EN", "RN"}[i%4])
+		}},
+	)
+	for _, as := range assignments {
+		if as.pick == nil {
+			// make sure every member has an embedded handle in use, then flush the DMap
+			ws := router.NewSession()
+			for _, m := range c.Live() {
+				_, _ = ws.ViaMember("E", m).Get(context.Background(), "warm-up")
+			}
+			ws.Close()
+			if d, err := c.Live()[0].Emb.NewDMap(dmap); err == nil {
+				if err := d.Destroy(context.Background()); err != nil {
+					ctx.rep.Inconclusive(spec + ": Destroy: " + err.Error())
+				}
+			}
+			ctx.rep.Count("destroys_between_rounds", 1)
+			continue
+		}
 		for _, op := range []string{"Incr", "Decr", "IncrByFloat", "GetPut"} {
 			for round := 0; round < rounds; round++ {
 				keyN++
@@ -204,7 +235,7 @@ func c07Child(ctx *runCtx, spec string) {
 				}
 				ctx.rep.Count("overlapping_call_pairs", int64(overl))
 				if overl > 0 {
-					ctx.rep.Distinct(fmt.Sprintf("N=%d R=%d|%s|%s|callers=%d|round=%d", n, r, as.Name, op, callers, round))
+					ctx.rep.Distinct(fmt.Sprintf("N=%d R=%d async=%v|%s|%s|callers=%d|round=%d", n, r, async, as.Name, op, callers, round))
 				}
 				clause, detail := c07Judge(op, calls, final)
 				if clause == "inconclusive" {
@@ -212,8 +243,8 @@ func c07Child(ctx *runCtx, spec string) {
 					continue
 				}
 				if clause != "" {
-					ctx.rep.Violate(fmt.Sprintf("c07|%s|%s|paths=%s", op, clause, as.Name),
-						fmt.Sprintf("N=%d R=%d %s x%d via %s on key %s: %s", n, r, op, callers, as.Name, key, detail),
+					ctx.rep.Violate(fmt.Sprintf("c07|%s|%s|paths=%s|async=%v", op, clause, as.Name, async),
+						fmt.Sprintf("N=%d R=%d async=%v %s x%d via %s on key %s: %s", n, r, async, op, callers, as.Name, key, detail),
 						map[string]interface{}{"N": n, "R": r, "op": op, "assignment": as.Name, "key": key, "calls": calls, "final": final})
 				}
 				if keyN%17 == 1 {
@@ -363,6 +394,9 @@ func c07Run(ctx *runCtx) int {
 	for _, nr := range [][2]int{{3, 1}, {3, 2}, {2, 2}, {1, 1}} {
 		batches = append(batches, batch{Spec: fmt.Sprintf("N=%d R=%d rounds=%d seed=%d", nr[0], nr[1], rounds, ctx.seed*100+int64(nr[0]*10+nr[1])), Timeout: 15 * time.Minute})
 	}
+	// asynchronous replication is a configuration too: the atomic operations read through the
+	// owner, which merges the backups' versions by timestamp
+	batches = append(batches, batch{Spec: fmt.Sprintf("N=3 R=2 rounds=%d seed=%d async=true", rounds, ctx.seed*100+88), Timeout: 15 * time.Minute})
 	rr := 1
 	if ctx.tier == "thorough" {
 		rr = 5
